@@ -863,13 +863,26 @@ def gen_numbering(loader, check, replay_on=True):
         check.ob_filter = saved
 
 
+def gen_type_objects(loader, check, replay_on=True):
+    """state that hides in shared type objects: the type a spelling denotes is independent of earlier declarations (generator of C01)"""
+    from . import c01
+    saved = getattr(check, "ob_filter", None)
+    check.ob_filter = r"declaration-type#history"
+    try:
+        c01.gen_type_history(loader, check, replay_on)
+    finally:
+        check.ob_filter = saved
+
+
 def gen_task(loader, check, what, replay_on=True):
+    if what == "type_objects":
+        return gen_type_objects(loader, check, replay_on)
     {"inventory": gen_inventory, "reset": gen_reset, "entry": gen_entry_points, "resources": gen_resources,
      "two_instances": gen_two_instances, "numbering": gen_numbering}[what](loader, check, replay_on)
 
 
 def generate_reduced(loader, check):
-    for w in ("inventory", "reset", "entry", "resources", "two_instances", "numbering"):
+    for w in ("inventory", "reset", "entry", "resources", "two_instances", "numbering", "type_objects"):
         gen_task(loader, check, w, False)
 
 
@@ -885,7 +898,7 @@ def run(check: Check):
     check.assume("callbacks write only per-behaviour state and the two resource objects covered by the two-state obligations "
                  "(Parameter.reads, SubRoutine return-type group); frames of the individual callbacks are the #modifies "
                  "obligations of C02/C03")
-    check.run_parallel("contracts.c14", "gen_task", [{"what": w} for w in ("inventory", "reset", "entry", "resources", "two_instances", "numbering")], workers=WORKERS)
+    check.run_parallel("contracts.c14", "gen_task", [{"what": w} for w in ("inventory", "reset", "entry", "resources", "two_instances", "numbering", "type_objects")], workers=WORKERS)
     if check.undecided:
         pass
     run_mutants(check, MUTANTS, "contracts.c14", "generate_reduced")
